@@ -191,6 +191,17 @@ func (g *Gen) verifyFunction(fn *ssa.Function, c *Contract) (res *VCResult) {
 			}
 			g.oblige(fmt.Sprintf("post#%d", e.Idx), "post", "true", and(parts...), e.Text, fn.Pos())
 		}
+		for _, e := range c.Recovers {
+			var parts []string
+			for _, x := range f.exits {
+				if !x.recovered {
+					continue
+				}
+				env := g.frameEnv(f, x.st, x.results)
+				parts = append(parts, fmt.Sprintf("(=> %s %s)", x.en, g.clauseEnv(env, e)))
+			}
+			g.oblige(fmt.Sprintf("recovers#%d", e.Idx), "post", "true", and(parts...), "after recovering from a panic: "+e.Text, fn.Pos())
+		}
 		if c.NoPanic {
 			var ens []string
 			for _, p := range f.panics {
